@@ -59,23 +59,27 @@ DataItems(a) == [i \in 1..Len(a) |-> D(a[i])]
 (* Reference decoder: tokenise from the front; an incomplete last token yields nothing. *)
 RECURSIVE SubEnd(_, _)
 \* position of the IAC of the IAC SE closing a subnegotiation whose body starts at j; 0 if not yet there
-SubEnd(w, j) ==
+SubEndV(w, j) ==
     IF j > Len(w) THEN 0
     ELSE IF w[j] = IAC
          THEN IF j + 1 > Len(w) THEN 0
               ELSE IF w[j + 1] = SE THEN j ELSE SubEnd(w, j + 2)
          ELSE SubEnd(w, j + 1)
+SubEnd(w, j) == LET F(v) == SubEndV(w, v) IN Strict(F, j)
 
 RECURSIVE SubBody(_, _, _)
 \* items of the subnegotiation body w[j..e-1]; IAC IAC is one byte 255
-SubBody(w, j, e) ==
+SubBodyV(w, j, e) ==
     IF j >= e THEN <<>>
     ELSE IF w[j] = IAC
          THEN (IF w[j + 1] = IAC THEN <<SBI(IAC)>> ELSE <<BAD>>) \o SubBody(w, j + 2, e)
          ELSE <<SBI(w[j])>> \o SubBody(w, j + 1, e)
+SubBody(w, j, e) == LET F(v) == SubBodyV(w, v, e) IN Strict(F, j)
 
 RECURSIVE DecFrom(_, _)
-DecFrom(w, i) ==
+DecSub(w, i, e) ==      \* a subnegotiation starting at i (IAC SB ...) whose closing IAC SE is at e (0: not complete)
+    IF e = 0 THEN <<>> ELSE SubBody(w, i + 2, e) \o <<SEI>> \o DecFrom(w, e + 2)
+DecFromV(w, i) ==
     IF i > Len(w) THEN <<>>
     ELSE LET b == w[i] IN
       IF b = IAC THEN
@@ -86,9 +90,7 @@ DecFrom(w, i) ==
           ELSE IF IsNeg(c) THEN
                IF i + 2 > Len(w) THEN <<>> ELSE <<C(c, w[i + 2])>> \o DecFrom(w, i + 3)
           ELSE IF c = SB THEN
-               LET e == SubEnd(w, i + 2) IN
-                 IF e = 0 THEN <<>>
-                 ELSE SubBody(w, i + 2, e) \o <<SEI>> \o DecFrom(w, e + 2)
+               LET F(ev) == DecSub(w, i, ev) IN Strict(F, SubEnd(w, i + 2))
           ELSE <<BAD>>
       ELSE IF b = CR THEN
         IF i + 1 > Len(w) THEN <<>>
@@ -96,6 +98,7 @@ DecFrom(w, i) ==
         ELSE IF w[i + 1] = NUL THEN <<D(CR)>> \o DecFrom(w, i + 2)
         ELSE <<BAD>>
       ELSE <<D(b)>> \o DecFrom(w, i + 1)
+DecFrom(w, i) == LET F(v) == DecFromV(w, v) IN Strict(F, i)
 
 Dec(w) == LET F(v) == DecFrom(v, 1) IN Strict(F, w)
 
@@ -136,7 +139,8 @@ FeedV(m, b) ==
 Feed(m, b) == LET F(v) == FeedV(v, b) IN Strict(F, m)
 
 RECURSIVE FeedFrom(_, _, _)
-FeedFrom(m, s, i) == IF i > Len(s) THEN m ELSE FeedFrom(Feed(m, s[i]), s, i + 1)
+FeedFromV(m, s, i) == IF i > Len(s) THEN m ELSE FeedFrom(Feed(m, s[i]), s, i + 1)
+FeedFrom(m, s, i) == LET F(v) == FeedFromV(m, s, v) IN Strict(F, i)
 FeedAll(m, s) == LET F(v) == FeedFrom(m, v, 1) IN Strict(F, s)
 
 \* nothing is held back by the sender: the wire ends between tokens
@@ -168,14 +172,14 @@ WriteCall(kind, pieces, w) ==
     /\ cfg.mode = "app"
     /\ app' = app \o Flatten(pieces)
     /\ wire' = wire \o w
-    /\ last' = [e |-> "write", kind |-> kind]
+    /\ last' = [e |-> "write", kind |-> kind, app |-> Flatten(pieces), wire |-> w]
     /\ UNCHANGED <<cfg, consumed, mach, out>>
 
 (* The test harness itself puts RFC-valid bytes on the wire (receiver-only runs). *)
 Inject(w) ==
     /\ cfg.mode = "wire"
     /\ wire' = wire \o w
-    /\ last' = [e |-> "inject"]
+    /\ last' = [e |-> "inject", wire |-> w]
     /\ UNCHANGED <<cfg, app, consumed, mach, out>>
 
 (* The network hands the next k bytes to the peer in one dataReceived call. *)
@@ -200,6 +204,15 @@ ValidWire   == cfg.mode = "wire" => ~HasBad(Dec(wire))              \* harness s
 NoCommands  == cfg.mode = "app" => \A i \in 1..Len(out) : out[i][1] = "d"   \* IAC in data never a command
 NoLoss      == cfg.mode = "app" => IsPrefix(out, DataItems(app))    \* nothing lost, reordered, duplicated
 EndToEnd    == (cfg.mode = "app" /\ consumed = Len(wire)) => out = DataItems(app)
+
+(* Per-call forms, equivalent to SenderInv / ValidWire by induction over the calls: a call that starts
+   between tokens and satisfies SenderOK on its own bytes extends a wire satisfying SenderOK to one
+   satisfying it (Dec(u \o w) = Dec(u) \o Dec(w) when u ends between tokens).  The exhaustive run
+   checks both forms; trace validation conjoins the per-call form (cost linear in the call) and checks
+   the reference decoding of the whole stream at every point where the peer has consumed everything. *)
+CallInv     == /\ (last.e = "write"  => SenderOK(last.app, last.wire))
+               /\ (last.e = "inject" => (~HasBad(Dec(last.wire)) /\ Complete(last.wire)))
+RefInvSync  == consumed = Len(wire) => out = Dec(wire)
 
 Inv == RefInv /\ SenderInv /\ ValidWire /\ NoCommands /\ NoLoss /\ EndToEnd
 =============================================================================
